@@ -224,7 +224,7 @@ def classify(res):
     return "pass"
 
 
-def run_job(group, harness, mode="full", timeout_s=600, mem_gb=12, unwind=None, playback=False, keep=False,
+def run_job(group, harness, mode="full", timeout_s=600, mem_gb=12, unwind=None, playback=False, keep=False, fs=None,
             extra=None):
     """Run one harness; returns a result dict."""
     group.materialize()
@@ -253,6 +253,12 @@ def run_job(group, harness, mode="full", timeout_s=600, mem_gb=12, unwind=None, 
         cmd += ["-Z", "concrete-playback", "--concrete-playback=print"]
     if extra:
         cmd += extra
+    fs = os.environ.get("VERIF_FS", "") or fs or ""
+    if fs:
+        # CBMC expands arrays of up to 64 elements into one SSA symbol per element; the models' byte
+        # arrays (keys, tags, transcripts, oracle table) make every state merge touch thousands of
+        # symbols.  A smaller limit keeps them as arrays (same semantics, different encoding).
+        cmd += ["-Z", "unstable-options", "--cbmc-args", "--max-field-sensitivity-array-size", str(fs)]
     wrapped = ["bash", "-c", "ulimit -v %d; exec timeout -k 10 %d \"$@\"" % (int(mem_gb * 1024 * 1024), int(timeout_s)),
                "job"] + cmd
     t0 = time.time()
